@@ -1,3 +1,247 @@
 package main
 
-func workerMain(args []string) {}
+// Isolated execution of cases (C06): `kvh worker` reads one JSON case per
+// line on stdin, writes "B <id>" before and a JSON result line after each
+// case.  A fatal runtime error (stack exhaustion, concurrent map writes)
+// kills the worker; the parent attributes it to the case that was begun and
+// not ended, and restarts a fresh worker for the remaining cases.
+
+import (
+	"bufio"
+	"encoding/json"
+	"fmt"
+	"io"
+	"os"
+	"os/exec"
+	"runtime/debug"
+	"strings"
+	"time"
+)
+
+type crashCase struct {
+	ID    string `json:"id"`
+	Q     string `json:"q"`
+	Store string `json:"store"`
+	Mode  string `json:"mode"`
+	BS    int    `json:"bs"`
+	Cache bool   `json:"cache"`
+	Pad   int    `json:"pad"`
+}
+
+type crashResult struct {
+	ID      string   `json:"id"`
+	Q       string   `json:"q"`
+	Store   string   `json:"store"`
+	Mode    string   `json:"mode"`
+	BS      int      `json:"bs"`
+	Events  []string `json:"events"`  // Build BuildOk|BuildErr Poll Rows|Eos|PollErr ... Render RenderOk | Panic:<fn> Fatal Timeout Runaway
+	Outcome string   `json:"outcome"` // done | failed | rejected | panic | fatal | timeout | runaway
+	Detail  string   `json:"detail"`
+	NRows   int      `json:"nrows"`
+}
+
+func runCrashCase(cc crashCase, stores map[string][]KV) crashResult {
+	res := crashResult{ID: cc.ID, Q: cc.Q, Store: cc.Store, Mode: cc.Mode, BS: cc.BS, Events: []string{}}
+	pairs := stores[cc.Store]
+	sh := &Shared{St: NewRefStore(pairs)}
+	rec := NewRec(sh, 0)
+	o := RunQuery(cc.Q, rec, rec, RunOpts{Mode: cc.Mode, BSize: cc.BS, Cache: cc.Cache, MaxRows: 20000})
+	for _, e := range sh.Log {
+		switch e.Op {
+		case "Build":
+			res.Events = append(res.Events, "Build")
+		case "BuildEnd":
+			if e.Ok {
+				res.Events = append(res.Events, "BuildOk")
+			} else {
+				res.Events = append(res.Events, "BuildErr")
+			}
+		case "Poll":
+			res.Events = append(res.Events, "Poll")
+		case "PollEnd":
+			if e.Err != "" {
+				res.Events = append(res.Events, "PollErr")
+			} else if e.Ok {
+				res.Events = append(res.Events, "Rows")
+			} else {
+				res.Events = append(res.Events, "Eos")
+			}
+		case "Panic":
+			res.Events = append(res.Events, "Panic")
+		}
+	}
+	// keep the event list short: collapse runs of Poll/Rows
+	res.Events = collapsePolls(res.Events)
+	res.Outcome = o.Phase
+	res.NRows = len(o.Rows)
+	if o.Phase == "panic" {
+		res.Detail = o.ErrMsg + " @" + o.PanicFn
+	}
+	if o.Phase == "runaway" {
+		res.Events = append(res.Events, "Runaway")
+	}
+	if o.err != nil {
+		res.Events = append(res.Events, "Render")
+		s, p := BindAndRender(o.err, cc.Q, cc.Pad)
+		if p != "" {
+			res.Events = append(res.Events, "Panic")
+			res.Outcome = "panic"
+			res.Detail = "rendering: " + p
+		} else {
+			res.Events = append(res.Events, "RenderOk")
+			if res.Detail == "" {
+				res.Detail = firstLine(s)
+			}
+		}
+	}
+	return res
+}
+
+func collapsePolls(ev []string) []string {
+	out := []string{}
+	n := 0
+	for i := 0; i < len(ev); i++ {
+		if ev[i] == "Poll" && i+1 < len(ev) && ev[i+1] == "Rows" {
+			n++
+			if n <= 3 {
+				out = append(out, "Poll", "Rows")
+			}
+			i++
+			continue
+		}
+		out = append(out, ev[i])
+	}
+	return out
+}
+
+func workerMain(args []string) {
+	debug.SetMaxStack(48 << 20) // a runaway recursion dies quickly instead of eating a gigabyte
+	stores := corpusStores()
+	in := bufio.NewReaderSize(os.Stdin, 1<<20)
+	w := bufio.NewWriter(os.Stdout)
+	for {
+		line, err := in.ReadBytes('\n')
+		if len(line) > 1 {
+			var cc crashCase
+			if json.Unmarshal(line, &cc) == nil {
+				fmt.Fprintf(w, "B %s\n", cc.ID)
+				w.Flush()
+				res := runCrashCase(cc, stores)
+				b, _ := json.Marshal(res)
+				w.Write(b)
+				w.WriteByte('\n')
+				w.Flush()
+			}
+		}
+		if err != nil {
+			return
+		}
+	}
+}
+
+// runIsolated runs the cases in worker processes and returns one result per case.
+func runIsolated(cases []crashCase, perCase time.Duration) ([]crashResult, []string) {
+	var results []crashResult
+	var infra []string
+	self, _ := os.Executable()
+	i := 0
+	retried := map[string]bool{}
+	for i < len(cases) {
+		cmd := exec.Command(self, "worker")
+		stdin, _ := cmd.StdinPipe()
+		stdout, _ := cmd.StdoutPipe()
+		var stderr strings.Builder
+		cmd.Stderr = &stderr
+		if err := cmd.Start(); err != nil {
+			return results, []string{"cannot start worker: " + err.Error()}
+		}
+		lines := make(chan string, 16)
+		go func() {
+			sc := bufio.NewScanner(stdout)
+			sc.Buffer(make([]byte, 1<<20), 1<<26)
+			for sc.Scan() {
+				lines <- sc.Text()
+			}
+			close(lines)
+		}()
+		alive := true
+		for alive && i < len(cases) {
+			cc := cases[i]
+			b, _ := json.Marshal(cc)
+			if _, err := io.WriteString(stdin, string(b)+"\n"); err != nil {
+				alive = false
+				break
+			}
+			deadline := perCase
+			if retried[cc.ID] {
+				deadline = 10 * perCase
+			}
+			timer := time.NewTimer(deadline)
+			got := false
+			for !got {
+				select {
+				case l, ok := <-lines:
+					if !ok {
+						// worker died on this case
+						msg := stderr.String()
+						kind := "fatal"
+						detail := firstFatal(msg)
+						results = append(results, crashResult{ID: cc.ID, Q: cc.Q, Store: cc.Store, Mode: cc.Mode, BS: cc.BS,
+							Events: []string{"Build", "Fatal"}, Outcome: kind, Detail: detail})
+						i++
+						alive = false
+						got = true
+						break
+					}
+					if strings.HasPrefix(l, "B ") {
+						continue
+					}
+					var r crashResult
+					if json.Unmarshal([]byte(l), &r) == nil && r.ID == cc.ID {
+						results = append(results, r)
+						i++
+						got = true
+					}
+				case <-timer.C:
+					cmd.Process.Kill()
+					if !retried[cc.ID] {
+						retried[cc.ID] = true // re-run alone with a ten-fold deadline before calling it a hang
+					} else {
+						results = append(results, crashResult{ID: cc.ID, Q: cc.Q, Store: cc.Store, Mode: cc.Mode, BS: cc.BS,
+							Events: []string{"Build", "Timeout"}, Outcome: "timeout", Detail: fmt.Sprintf("no answer within %s", deadline)})
+						i++
+					}
+					alive = false
+					got = true
+				}
+			}
+			timer.Stop()
+		}
+		stdin.Close()
+		cmd.Process.Kill()
+		cmd.Wait()
+	}
+	return results, infra
+}
+
+func firstFatal(msg string) string {
+	for _, l := range strings.Split(msg, "\n") {
+		if strings.HasPrefix(l, "fatal error:") || strings.HasPrefix(l, "runtime:") || strings.HasPrefix(l, "panic:") {
+			fn := ""
+			for _, l2 := range strings.Split(msg, "\n") {
+				if strings.HasPrefix(l2, "github.com/c4pt0r/kvql.") {
+					fn = strings.TrimPrefix(l2, "github.com/c4pt0r/kvql.")
+					if k := strings.LastIndex(fn, "("); k >= 0 {
+						fn = fn[:k]
+					}
+					break
+				}
+			}
+			return strings.TrimSpace(l) + " @" + fn
+		}
+	}
+	if len(msg) > 200 {
+		msg = msg[:200]
+	}
+	return strings.TrimSpace(msg)
+}
